@@ -16,6 +16,7 @@ func runC19(c *core.Check) {
 	c.Assumes = []string{"the source text never contains a canary, so snippets cannot cause false positives", "messages of the application function fail() are not canary-bearing"}
 	streamTLC(c, core.TLCRun{Module: "MC_E1", NoPred: true, Parts: 4, Consts: e1Consts(c), Timeout: minutes(25), KeepVars: []string{"e", "fv", "last"}},
 		func(st core.State) { c19.Handle(c, st) })
+	deepE1(c, false, func(st core.State) { c19.Handle(c, st) })
 	// bodies: the expression as an attribute value / for_each / label under 13 hcldec specs (conversion and
 	// decoding error paths of hcldec and dynblock)
 	bc := map[string]string{"MaxD": "1", "Level2": "\"core\""}
